@@ -15,6 +15,7 @@ func init() {
 	env.Register("C17_Filter", C17_Filter)
 	env.Register("C17_MainLoopForward", C17_MainLoopForward)
 	env.Register("C18_NodeLeader", C18_NodeLeader)
+	env.Register("C17_LeaveCommittee", C17_LeaveCommittee)
 }
 
 type c17Msg struct {
@@ -179,4 +180,55 @@ func C18_NodeLeader() {
 			env.Reach("C18.node.accepted_current_view")
 		}
 	}
+}
+
+// C17_LeaveCommittee: the committee changes between heights. The node is a member at height 1 and commits it (or is
+// synced past it); at the height it then starts (symbolic) it is NOT in the committee. Messages of that height, one
+// cached beforehand and one arriving afterwards, must not reach the protocol logic of the term of height 1 (nor
+// any other term): nothing is stored, nothing is sent. When the node later starts a height where it is a member
+// again, messages of that height are handled normally.
+func C17_LeaveCommittee() {
+	const me = 1
+	wd := newWorld(me, equalWeights(4))
+	n := wd.n
+	n.commitErr = false
+	full := wd.net.committee
+	without := []interfaces.CommitteeMember{full[0], full[2], full[3]}
+	outH := primitives.BlockHeight(2)
+	bySync := env.NondetBool("leaves_by_sync")
+	if bySync {
+		outH = primitives.BlockHeight(env.NondetU64("out_height"))
+		env.Assume(outH >= 2 && outH < 1<<61)
+	}
+	n.mem.OrderedCommittee = func(h primitives.BlockHeight) []interfaces.CommitteeMember {
+		if h == outH {
+			return without
+		}
+		return full
+	}
+	n.st.OnStore = func(e *stub.StoreEvent) { e.StateHeight = n.m.state.Height() }
+	blk := &stub.Block{H: outH, Tag: 0x23, ProposalOK: true}
+	early := wd.net.ppm(0, outH, 0, blk).ToConsensusRawMessage()
+	n.m.worker.handleRawMessage(early) // cached: a future height
+	if bySync {
+		wd.sync(&stub.Block{H: outH - 1})
+	} else {
+		roundWith(n, me, wd.net, 1, &stub.Block{H: 1, Tag: 0x21, ProposalOK: true})
+	}
+	env.Assert("C17.leave.at_out_height", n.m.state.Height() == outH)
+	ev, out := len(n.st.Events), len(n.comm.Out)
+	n.m.worker.handleRawMessage(wd.net.pm(2, outH, 0, stub.HashOf(blk)).ToConsensusRawMessage())
+	n.m.worker.handleRawMessage(wd.net.ppm(0, outH, 0, blk).ToConsensusRawMessage())
+	for _, e := range n.st.Events {
+		env.Assert("C17.only_own_height", e.Msg.BlockHeight() == e.StateHeight)
+	}
+	env.Assert("C17.leave.not_member_not_involved", len(n.st.Events) == ev && len(n.comm.Out) == out)
+	wd.checkHeightIsAnnouncedRound()
+	// back in the committee at the next height
+	wd.sync(&stub.Block{H: outH})
+	out = len(n.comm.Out)
+	blk2 := &stub.Block{H: outH + 1, Tag: 0x25, ProposalOK: true}
+	n.m.worker.handleRawMessage(wd.net.ppm(0, outH+1, 0, blk2).ToConsensusRawMessage())
+	env.Assert("C17.leave.member_again", len(n.comm.Out) > out)
+	env.Reach("C17.leave.done")
 }
